@@ -1491,4 +1491,234 @@ theorem run_facts (sc : Scen) (w0 : W) (hidle : Idle w0) : RunFacts sc w0 (spinP
       obtain ⟨c, hc', _⟩ := hti.pend (hti.alive hc).1
       rw [h] at hc'; cases hc'
 
+/-! ## the observation of one step -/
+
+theorem afterPre_junk (sc : Scen) (w0 : W) : (afterPre sc w0).sp.junk = w0.sp.junk := by
+  rw [afterPre, schedPre_eq]; rfl
+
+theorem insAll_length : ∀ (L q : List (DCall (QAct Act))), (insAll L q).length = L.length + q.length
+  | [], q => by simp [insAll]
+  | c :: L, q => by
+      have := insAll_length L (insert c q)
+      simp only [insAll, List.foldl_cons] at this ⊢
+      rw [this, insert_length]; simp; omega
+
+theorem preCalls_length (b : Nat) : ∀ (i : Nat) (pre : List (Nat × Act)), (preCalls b i pre).length = pre.length
+  | _, [] => rfl
+  | i, (d, a) :: rest => by simp [preCalls, preCalls_length b (i + 1) rest]
+
+/-- the observation of a refused run -/
+theorem runStep_refused (sc : Scen) (w0 : W) (hidle : Idle w0) (hj : w0.sp.junk.isEmpty = false) :
+    (runStep sc w0).2 = { result := .stalejunk, events := [], reentries := [], junk := w0.sp.junk,
+                          pending := sc.pre.length, sels := 0, running := false, stopRestored := true,
+                          sigBefore := w0.sigs, sigAfter := w0.sigs, elapsed := 0 } ∧
+    (runStep sc w0).1.sp.junk = w0.sp.junk ∧ Idle (runStep sc w0).1 := by
+  have hS := afterPre_eq sc w0 hidle
+  have hjS : (!(afterPre sc w0).sp.junk.isEmpty) = true := by rw [afterPre_junk, hj]; rfl
+  have hrun : runStep sc w0 =
+      ({ afterPre sc w0 with calls := [] },
+       { result := .stalejunk, events := (afterPre sc w0).events, reentries := (afterPre sc w0).u.reentries,
+         junk := (afterPre sc w0).sp.junk, pending := (afterPre sc w0).calls.length, sels := (afterPre sc w0).sels.length,
+         running := (afterPre sc w0).running, stopRestored := !(afterPre sc w0).stopPatched,
+         sigBefore := w0.sigs, sigAfter := (afterPre sc w0).sigs, elapsed := (afterPre sc w0).now - w0.now }) := by
+    unfold runStep
+    simp only []
+    split
+    · rfl
+    · rename_i h; exact absurd hjS h
+  rw [hrun, hS]
+  refine ⟨?_, rfl, ⟨rfl, hidle.sels, hidle.running, hidle.stopPatched⟩⟩
+  simp [start, hidle.sels, hidle.running, hidle.stopPatched, insAll_length, preCalls_length]
+
+/-- the observation of a run that is not refused -/
+theorem runStep_ran (sc : Scen) (w0 : W) (hidle : Idle w0) (hj : w0.sp.junk = []) :
+    (runStep sc w0).2 = { result := getResult (spinPhase sc (afterPre sc w0)).sp,
+                          events := (spinPhase sc (afterPre sc w0)).events,
+                          reentries := (spinPhase sc (afterPre sc w0)).u.reentries,
+                          junk := leftovers (spinPhase sc (afterPre sc w0)),
+                          pending := 0, sels := 0, running := false, stopRestored := true,
+                          sigBefore := w0.sigs, sigAfter := restoreFrom 0 w0.sigs (spinPhase sc (afterPre sc w0)).sigs,
+                          elapsed := (spinPhase sc (afterPre sc w0)).now - w0.now } ∧
+    (runStep sc w0).1.sp.junk = leftovers (spinPhase sc (afterPre sc w0)) ∧ Idle (runStep sc w0).1 := by
+  have hjS : (!(afterPre sc w0).sp.junk.isEmpty) = false := by rw [afterPre_junk, hj]; rfl
+  have hsig : (afterPre sc w0).sigs = w0.sigs := by rw [afterPre, schedPre_eq]; rfl
+  have hjF : (spinPhase sc (afterPre sc w0)).sp.junk = [] := by rw [(run_facts sc w0 hidle).junk, hj]
+  have hrun : runStep sc w0 =
+      (let w := spinPhase sc (afterPre sc w0)
+       let w : W := { w with running := false, stopPatched := false, sigs := restoreFrom 0 (afterPre sc w0).sigs w.sigs }
+       let result := getResult w.sp
+       let w : W := { w with calls := [], sels := [], sp := { w.sp with junk := w.sp.junk ++ leftovers w } }
+       (w, { result := result, events := w.events, reentries := w.u.reentries, junk := w.sp.junk,
+             pending := w.calls.length, sels := w.sels.length, running := w.running, stopRestored := !w.stopPatched,
+             sigBefore := w0.sigs, sigAfter := w.sigs, elapsed := w.now - w0.now })) := by
+    unfold runStep
+    simp only []
+    split
+    · rename_i h; rw [show (!(afterPre sc w0).sp.junk.isEmpty) = true from h] at hjS; cases hjS
+    · rfl
+  rw [hrun]
+  simp only [hsig, hjF, List.nil_append, leftovers]
+  exact ⟨by simp, by simp, ⟨rfl, rfl, rfl, rfl⟩⟩
+
+/-! ## the clauses of the executable spec hold of every run of the model -/
+
+theorem tj_result {w : W} (h : TJ w) :
+    getResult w.sp ≠ .stalejunk ∧ getResult w.sp ≠ .reentry ∧
+    qT w + eT w + (if isOwnResult (getResult w.sp) = true then 1 else 0) = 1 := by
+  rcases h with ⟨_, hs, hf, hq, he⟩ | ⟨_, hs, hf, hq, he⟩ | ⟨_, ho, hq, he⟩
+  · simp [getResult, hs, hf, hq, he, isOwnResult]
+  · simp [getResult, hs, hf, hq, he, isOwnResult]
+  · refine ⟨?_, ?_, by simp [ho, hq, he]⟩
+    · intro h; rw [h] at ho; cases ho
+    · intro h; rw [h] at ho; cases ho
+
+theorem preservedSame_restore : ∀ (s : Nat) (a c : List Nat), c.length = a.length →
+    preservedSame s a (restoreFrom s a c) = true
+  | _, [], [], _ => rfl
+  | _, [], _ :: _, h => by simp at h
+  | _, _ :: _, [], h => by simp at h
+  | s, x :: as, y :: cs, h => by
+      simp only [restoreFrom, preservedSame, List.headD_cons, List.tail_cons]
+      rw [preservedSame_restore (s + 1) as cs (by simpa using h)]
+      cases preserved s <;> simp
+
+theorem count_leftovers_call (w : W) (x : Lbl) : (leftovers w).count (.call x) = (qlbls w).count x := by
+  have h1 : ∀ q : List (DCall (QAct Act)), (q.map fun c => Junk.call c.act.lbl).count (.call x) = (q.map (·.act.lbl)).count x := by
+    intro q
+    induction q with
+    | nil => rfl
+    | cons c rest ih =>
+      simp only [List.map_cons, List.count_cons, ih]
+      by_cases hx : c.act.lbl = x <;> simp [hx]
+  have h2 : ∀ ss : List Nat, (ss.map Junk.sel).count (.call x) = 0 := by
+    intro ss
+    induction ss with
+    | nil => rfl
+    | cons c rest ih => simp [List.count_cons, ih]
+  simp only [leftovers, List.count_append, h1, h2, qlbls, Nat.add_zero]
+
+theorem leftovers_sels (w : W) : (leftovers w).filterMap junkSel = w.sels := by
+  have h1 : ∀ q : List (DCall (QAct Act)), (q.map fun c => Junk.call c.act.lbl).filterMap junkSel = [] := by
+    intro q; induction q with
+    | nil => rfl
+    | cons c rest ih => simpa [junkSel] using ih
+  have h2 : ∀ ss : List Nat, (ss.map Junk.sel).filterMap junkSel = ss := by
+    intro ss; induction ss with
+    | nil => rfl
+    | cons c rest ih => simp [junkSel, ih]
+  simp [leftovers, List.filterMap_append, h1, h2]
+
+theorem refused_false {jb : List Junk} (h : jb = []) : refused jb = false := by simp [refused, h]
+theorem refused_true {jb : List Junk} (h : jb.isEmpty = false) : refused jb = true := by simp [refused, h]
+
+theorem junk_cases (j : List Junk) : j = [] ∨ j.isEmpty = false := by cases j <;> simp
+
+theorem clause_stale (sc : Scen) (w0 : W) (hidle : Idle w0) : cStale sc w0.sp.junk (runStep sc w0).2 = true := by
+  rcases junk_cases w0.sp.junk with hj | hj
+  · have hf := run_facts sc w0 hidle
+    rw [(runStep_ran sc w0 hidle hj).1]
+    simp [cStale, refused_false hj, (tj_result hf.tj).1]
+  · rw [(runStep_refused sc w0 hidle hj).1]
+    simp [cStale, refused_true hj]
+
+theorem clause_reentry (sc : Scen) (w0 : W) (hidle : Idle w0) : cReentry sc w0.sp.junk (runStep sc w0).2 = true := by
+  rcases junk_cases w0.sp.junk with hj | hj
+  · have hf := run_facts sc w0 hidle
+    rw [(runStep_ran sc w0 hidle hj).1]
+    simp only [cReentry, Bool.and_eq_true, List.all_eq_true, beq_iff_eq, bne_iff_ne]
+    exact ⟨⟨fun r hr => hf.book.reent_all r hr, (tj_result hf.tj).2.1⟩, hf.book.reent⟩
+  · rw [(runStep_refused sc w0 hidle hj).1]
+    simp [cReentry]
+
+theorem clause_result (sc : Scen) (w0 : W) (hidle : Idle w0) : cResult sc w0.sp.junk (runStep sc w0).2 = true := by
+  rcases junk_cases w0.sp.junk with hj | hj
+  · rw [(runStep_ran sc w0 hidle hj).1]
+    simp [cResult, (run_facts sc w0 hidle).result]
+  · simp [cResult, refused_true hj]
+
+theorem clause_clean (sc : Scen) (w0 : W) (hidle : Idle w0) : cClean sc w0.sp.junk (runStep sc w0).2 = true := by
+  rcases junk_cases w0.sp.junk with hj | hj
+  · rw [(runStep_ran sc w0 hidle hj).1]
+    simp [cClean, preservedSame_restore 0 _ _ (run_facts sc w0 hidle).sigs]
+  · simp [cClean, refused_true hj]
+
+theorem clause_bounded (sc : Scen) (w0 : W) (hidle : Idle w0) : cBounded sc w0.sp.junk (runStep sc w0).2 = true := by
+  rcases junk_cases w0.sp.junk with hj | hj
+  · rw [(runStep_ran sc w0 hidle hj).1]
+    have := (run_facts sc w0 hidle).now_le
+    simp [cBounded]; right; omega
+  · simp [cBounded, refused_true hj]
+
+theorem clause_junk (sc : Scen) (w0 : W) (hidle : Idle w0) : cJunk sc w0.sp.junk (runStep sc w0).2 = true := by
+  rcases junk_cases w0.sp.junk with hj | hj
+  · have hf := run_facts sc w0 hidle
+    rw [(runStep_ran sc w0 hidle hj).1]
+    simp only [cJunk, refused_false hj, Bool.false_or, Bool.and_eq_true, List.all_eq_true, beq_iff_eq, evLabels]
+    refine ⟨⟨⟨?_, ?_⟩, ?_⟩, ?_⟩
+    · intro l hl
+      rw [count_leftovers_call]
+      have := hf.book.cnt l
+      simp only [delayedLabels_lt sc l hl, if_true, elbls] at this
+      exact this
+    · rw [count_leftovers_call]
+      have := (tj_result hf.tj).2.2
+      simpa [qT, eT, elbls] using this
+    · intro j hj'
+      simp only [leftovers, List.mem_append, List.mem_map] at hj'
+      rcases hj' with ⟨c, hc, rfl⟩ | ⟨n, _, rfl⟩
+      · rcases hca : c.act with _ | ⟨l, a⟩
+        · simp [junkKnown, QAct.lbl]
+        · simp only [junkKnown, QAct.lbl, List.contains_iff_mem]
+          exact (hf.book.lab c hc l a hca).2
+      · rfl
+    · rw [leftovers_sels]
+      exact hf.book.sels
+  · simp [cJunk, refused_true hj]
+
+theorem runStep_link (sc : Scen) (w0 : W) (hidle : Idle w0) :
+    (runStep sc w0).2.junk = (runStep sc w0).1.sp.junk ∧ Idle (runStep sc w0).1 := by
+  rcases junk_cases w0.sp.junk with hj | hj
+  · obtain ⟨h1, h2, h3⟩ := runStep_ran sc w0 hidle hj
+    exact ⟨by rw [h1, h2], h3⟩
+  · obtain ⟨h1, h2, h3⟩ := runStep_refused sc w0 hidle hj
+    exact ⟨by rw [h1, h2], h3⟩
+
+theorem forRuns_model (p : Scen → List Junk → RunObs → Bool)
+    (hp : ∀ sc w0, Idle w0 → p sc w0.sp.junk (runStep sc w0).2 = true) :
+    ∀ (steps : List Step) (w : W), Idle w → forRuns p steps (runSteps steps w) w.sp.junk = true
+  | [], _, _ => by simp [forRuns, runSteps]
+  | .run sc :: rest, w, h => by
+      obtain ⟨hl, hi⟩ := runStep_link sc w h
+      simp only [runSteps, step, forRuns, hp sc w h, Bool.true_and]
+      rw [hl]
+      exact forRuns_model p hp rest _ hi
+  | .clearJunk :: rest, w, h => by
+      simp only [runSteps, step, forRuns]
+      exact forRuns_model p hp rest { w with sp := { w.sp with junk := [] } } ⟨h.calls, h.sels, h.running, h.stopPatched⟩
+
+theorem shape_model : ∀ (steps : List Step) (w : W), shape steps (runSteps steps w) = true
+  | [], _ => rfl
+  | .run sc :: rest, w => by simp only [runSteps, step, shape]; exact shape_model rest _
+  | .clearJunk :: rest, w => by simp only [runSteps, step, shape]; exact shape_model rest _
+
+theorem clearOk_model : ∀ (steps : List Step) (w : W), Idle w → clearOk steps (runSteps steps w) w.sp.junk = true
+  | [], _, _ => by simp [clearOk, runSteps]
+  | .run sc :: rest, w, h => by
+      obtain ⟨hl, hi⟩ := runStep_link sc w h
+      simp only [runSteps, step, clearOk]
+      rw [hl]
+      exact clearOk_model rest _ hi
+  | .clearJunk :: rest, w, h => by
+      simp only [runSteps, step, clearOk, beq_self_eq_true, Bool.true_and]
+      exact clearOk_model rest { w with sp := { w.sp with junk := [] } } ⟨h.calls, h.sels, h.running, h.stopPatched⟩
+
+theorem idle_init : Idle init := ⟨rfl, rfl, rfl, rfl⟩
+
+/-- **Headline.** The executable specification holds of the model's trace, for every input. -/
+theorem holds_model (i : Input) : holds i (model i) = true := by
+  have h := fun p hp => forRuns_model p hp i.steps init idle_init
+  simp only [holds, clauses, List.all_cons, List.all_nil, Bool.and_true, Bool.and_eq_true, lift, model]
+  exact ⟨shape_model _ _, h _ clause_stale, h _ clause_reentry, h _ clause_result, h _ clause_clean, h _ clause_junk,
+    h _ clause_bounded, clearOk_model _ _ idle_init⟩
+
 end TTV.Props.C15
